@@ -630,6 +630,15 @@ fn respond(c: &mut C, d: &Dhcp, mt: u8) -> Result<(), Violation> {
         }
         r.options.push((6, v));
     }
+    // pad octets (option 0, e.g. for word alignment) may sit between any two options
+    if c.tape.draw(4) == 0 {
+        let n = 1 + c.tape.draw(3) as usize;
+        for _ in 0..n {
+            let at = c.tape.draw(r.options.len() as u64 + 1) as usize;
+            r.options.insert(at, (0, vec![]));
+        }
+        c.stats.inc("dhcp.server-messages-with-pad-options");
+    }
     let mut b = enc_dhcp(&r);
     // structural damage (never counted as valid)
     match behaviour {
